@@ -858,3 +858,54 @@ theorem probeOf_pushed_inSync (env : Env) (sh : Shard) (f : Fault) (hr : f.notRe
   simp [hr, hs, hrt, hp]
 
 end Kvass.Loop
+
+namespace Kvass.Loop
+open Kvass Kvass.Coord Kvass.Spec
+
+/-- **C07 in the closed loop: a shard in use is not scaled away.**  Whatever the faults, a running
+    sidecar that holds any target at all is among the running ones after the step (while the size is
+    within max-shard): either its shard is not in sync — then nothing is removed at or below it — or
+    it reports its targets, and a shard that reports a target is needed. -/
+theorem step_nonempty_stays (swr : Swr) (env : Env) (w : World) (sc : Sched) (F : List Fault) (b : Bool)
+    (hrep : w.replicas ≤ w.shards.length)
+    (hidle : ∀ sh ∈ w.running, Sidecar.IdleInv sh.sc) (hmax : (w.replicas : Int) ≤ env.opt.maxShard)
+    {i : Nat} {sh : Shard} (hrun : w.running[i]? = some sh) (hne : statusOf sh ≠ []) :
+    i < (step swr env w (.cycle sc F b)).replicas := by
+  show i < (cycleStep swr env w sc F b).1.replicas
+  have hrl := running_length w hrep
+  have hpl := inputOf_probes_length env w F b
+  have hp := inputOf_probe_f env w F b i sh hrun
+  have hil : i < w.replicas := by
+    have := (List.getElem?_eq_some_iff.mp hrun).1
+    rw [hrl] at this; exact this
+  obtain ⟨r, hr⟩ : ∃ r, (cycle swr sc (inputOf env w F b)).reqs[i]? = some r := by
+    rcases reqs_cases swr sc (inputOf env w F b) hp with h1 | ⟨_, s, _, h2⟩
+    · exact ⟨_, h1⟩
+    · exact ⟨_, h2⟩
+  have hneeded : C07.needed (inputOf env w F b) (probeOf env sh (faultAt F i)) r = true := by
+    unfold C07.needed
+    cases hsync : inSync (probeOf env sh (faultAt F i)) with
+    | false => simp
+    | true =>
+      have hrep' := reported_probeOf_sync env sh (faultAt F i) hsync
+      have : (reported (probeOf env sh (faultAt F i))).isEmpty = false := by
+        rw [hrep']
+        cases hs : statusOf sh with
+        | nil => exact absurd hs hne
+        | cons a as => rfl
+      simp [this]
+  have hmem : (i, probeOf env sh (faultAt F i), r) ∈
+      shardsOf (inputOf env w F b) (Obs.ofOutcome (cycle swr sc (inputOf env w F b))) :=
+    mem_shardsOf.mpr ⟨hp, hr⟩
+  have hge := lastNeeded_ge _ _ hmem hneeded
+  have hn : (((inputOf env w F b).probes.length : Nat) : Int) ≤ (inputOf env w F b).opt.maxShard := by
+    rw [hpl, hrl]; exact hmax
+  have hbelow : ∀ k ∈ (cycle swr sc (inputOf env w F b)).scales, (i : Int) < k := by
+    intro k hk
+    have := Props.C07.C07_keepsNeeded swr sc (inputOf env w F b) (hprod_f env w F b hidle) hn k hk
+    omega
+  -- whatever the shard became after the requests, it is still there after the resize
+  obtain ⟨h1, _⟩ := applyOutcome_shard_f w F (cycle swr sc (inputOf env w F b)) i sh hrep hrun
+  exact (cycleStep_shard_f swr env w sc F b i _ hrep hil hbelow h1).2
+
+end Kvass.Loop
